@@ -36,6 +36,19 @@ func wallNow() int64 {
 // ErrSimIO is the injected storage error.
 var ErrSimIO = errors.New("sim: injected storage I/O error")
 
+// ErrSimTimeout is the injected storage error in its "driver timeout" flavour.
+var ErrSimTimeout = fmt.Errorf("sim: injected storage I/O error: acquire connection: %w", context.DeadlineExceeded)
+
+// TimeoutIterErrs counts fired iterator errors of the "driver timeout" flavour.
+func (d *DS) TimeoutIterErrs() int64 { return d.timeoutIterErrs.Load() }
+
+func (d *DS) ioErr(req, sig string, occ uint64) error {
+	if d.cfg.TimeoutErrs && d.run.H("errflavour", req, sig, occ)%2 == 0 {
+		return ErrSimTimeout
+	}
+	return ErrSimIO
+}
+
 // Fault kinds (bit mask in DSConfig.Faults).
 const (
 	FaultOpenErr = 1 << iota // Read*/ReadChanges/... return an error
@@ -56,6 +69,9 @@ type DSConfig struct {
 	// PanicOnlyIn restricts injected panics to calls whose stack contains one of these substrings
 	// (e.g. "listobjects/pipeline": only goroutines of the pipeline, which promise to recover).
 	PanicOnlyIn []string
+	// TimeoutErrs: about half of the injected open/iterator errors wrap context.DeadlineExceeded, the
+	// way a driver or connection-pool timeout does while the REQUEST's own context is alive.
+	TimeoutErrs bool
 }
 
 // OpInfo describes an intercepted storage operation.
@@ -77,6 +93,7 @@ type DS struct {
 	openSigs  map[string]int
 	changesReads []ChangesRead
 	OpenIters atomic.Int64
+	timeoutIterErrs atomic.Int64
 	Opened    atomic.Int64
 	Stopped   atomic.Int64
 	fired     map[string]int
@@ -216,7 +233,7 @@ func (d *DS) enter(ctx context.Context, op, store, sig string, isWrite bool) (Op
 	}
 	if d.cfg.Faults&kind != 0 && d.run.Chance(d.cfg.FaultRate, "openerr", req, sig, occ) && d.fire(name) {
 		d.run.Log("fault", name+" "+req+" "+sig)
-		return info, ErrSimIO
+		return info, d.ioErr(req, sig, occ)
 	}
 	// panics are injected into tuple reads only: those run on the engine's own goroutines, whose
 	// panic handling is what the properties are about (a panic in the caller's goroutine is the gRPC
@@ -307,6 +324,7 @@ type simIter struct {
 	failAt  int
 	panicAt int
 	failed  bool
+	err     error
 	stopped atomic.Bool
 	openCtx context.Context
 }
@@ -324,7 +342,7 @@ func (s *simIter) step(ctx context.Context) error {
 		if err := s.d.run.SleepUnique(ctx, time.Millisecond); err != nil {
 			return err
 		}
-		return ErrSimIO
+		return s.err
 	}
 	if s.d.cfg.IterLatency {
 		lat := time.Duration(s.d.run.H("ilat", s.info.Req, s.info.Sig, s.occ, s.n)%uint64(s.d.cfg.MaxLatency)) + 1
@@ -335,7 +353,11 @@ func (s *simIter) step(ctx context.Context) error {
 	if s.failAt > 0 && s.n == s.failAt && s.d.fire("iter_err") {
 		s.failed = true
 		s.d.run.Log("fault", fmt.Sprintf("iter_err %s %s pos=%d", s.info.Req, s.info.Sig, s.n))
-		return ErrSimIO
+		s.err = s.d.ioErr(s.info.Req, s.info.Sig, s.occ)
+		if s.err == ErrSimTimeout {
+			s.d.timeoutIterErrs.Add(1)
+		}
+		return s.err
 	}
 	if s.panicAt > 0 && s.n == s.panicAt && s.d.panicAllowedHere() && s.d.fire("iter_panic") {
 		s.d.run.Log("fault", fmt.Sprintf("iter_panic %s %s pos=%d", s.info.Req, s.info.Sig, s.n))
@@ -356,7 +378,7 @@ func (s *simIter) Head(ctx context.Context) (*openfgav1.Tuple, error) {
 		if err := s.d.run.SleepUnique(ctx, time.Millisecond); err != nil {
 			return nil, err
 		}
-		return nil, ErrSimIO
+		return nil, s.err
 	}
 	return s.inner.Head(ctx)
 }
